@@ -32,7 +32,7 @@ CHECKS = {
         'every run. Correspondence: random tables x all token strings up to length 5: expression-level model (raw triples '
         'incl. failure position), token-level loop model, the reference, and the yield judge on every successful parse; '
         'character-level tables (++ vs +, mixfix, ignore) through the expression-level model.',
-   note=TB + 'partial: the unbounded equivalence loop = reference (wf_prec/uniqueness) is not proved; mixfix rows are covered by correspondence and by C01\'s Longest/Choice semantics only.',
+   note=TB + 'Known finding: a postfix operator is preferred over a longer infix operator of another row matching at the same place. Character-level tables with overlapping multi-character spellings and tables written inline inside another table are judged by the rule of the property (ordered inside a row, longest across rows) + the token-level reference. partial: the unbounded equivalence loop = reference (wf_prec/uniqueness) is not proved; mixfix rows are covered by correspondence and by C01\'s Longest/Choice semantics only.',
    technique='Coq proof of the yield invariant + kernel-computed finite equivalence with a reference + differential correspondence',
    ref='DESIGN.md §6 C02'),
  'C03': dict(
